@@ -9,7 +9,7 @@ def run(rep, kf, tier, seed):
     cfgc.reads_frame_obligations(rep, "C16")
     import contracts.responses_b as rb
     engine_b.discharge(rep, kf, [cfgc.get_content_type_contract(), cfgc.class_from_string_contract(), cc.from_data_contract(),
-                                 rb.body_from_data_contract()],
+                                 rb.body_from_data_contract(), rb.source_table_contract()],
                        "C16", tier, seed)
     import contracts.project as cproj
     engine_b.discharge(rep, kf, [cproj.init_contract()], "C16", tier, seed)
